@@ -95,6 +95,10 @@ def cases(tier, seed):
         out.append({"input": {"kind": "program", "text": text, "goals": goals}, "N": 5})
     for text, goal, div in DIVERGE:
         out.append({"input": {"kind": "diverge", "text": text, "goal": goal, "diverges": div}})
+    # central moments / cumulants after the loop when several raw moments diverge: must be reported as oo (not nan)
+    sp = "stop = 0\nc = 1\nd = 1\nwhile stop == 0:\n    stop = Bernoulli(1/2)\n    c = 2*c\n    d = 3*d/2\nend\n"
+    for goal, div in (("c2(c)", True), ("k2(c)", True), ("c3(d)", True), ("k3(d)", True), ("c2(d)", True), ("E(d)", False)):
+        out.append({"input": {"kind": "diverge_goal", "text": sp, "goal": goal, "diverges": div}})
     return out
 
 
@@ -250,6 +254,44 @@ def run_case(case):
     args = polar.cli_defaults()
     rb = RecBuilder(program)
     solvers = {}
+    if inp["kind"] == "diverge_goal":
+        ga_args = polar.cli_defaults()
+        ga_args.after_loop = True
+        ga = GoalsAction(ga_args)
+        ga.initialize_program(program, rb)
+        try:
+            with cpu_limit(90):
+                gt, gd = GoalParser.parse(inp["goal"])
+                if gt == "MOMENT":
+                    val, _ = ga.handle_moment_goal(gd)
+                elif gt == "CENTRAL":
+                    val, _ = ga.handle_central_moment_goal(gd)
+                else:
+                    val, _ = ga.handle_cumulant_goal(gd)
+        except CpuTimeout:
+            stats["refusals"]["timeout"] = 1
+            res["status"] = "refusal"
+            return res
+        except Exception as e:
+            stats["refusals"][exc_name(e)] = 1
+            res["status"] = "refusal"
+            return res
+        val = sympy.sympify(val)
+        stats["evaluations"] += 1
+        stats["distinct_nontrivial"] = 1
+        res["sample"] = {"program": text, "goal": inp["goal"], "polar_after_loop": str(val), "diverges": inp["diverges"]}
+        is_inf = val in (sympy.oo, sympy.zoo, -sympy.oo)
+        if inp["diverges"] and not is_inf:
+            res["violations"].append({"sub": "divergence %s" % inp["goal"],
+                                      "detail": {"program": text, "polar_after_loop": str(val), "truth": "diverges (must be reported as oo)"}})
+            res["status"] = "violation"
+        if not inp["diverges"] and (is_inf or val.has(sympy.nan)):
+            res["violations"].append({"sub": "divergence %s" % inp["goal"],
+                                      "detail": {"program": text, "polar_after_loop": str(val), "truth": "finite"}})
+            res["status"] = "violation"
+        stats["states"] = model.states_seen
+        stats["transitions"] = model.transitions
+        return res
     if inp["kind"] == "diverge":
         try:
             with cpu_limit(60):
